@@ -275,6 +275,9 @@ class Reduce(Family):
         return "%s/p%d/t%d/%s" % (c["mode"], c["p"], c["t"], c["kind"])
 
 
+XS = [0.0, 0.3125, 0.7, 1.0]
+
+
 class DegreeOps(Family):
     """operations.degree_operations on Bezier curves (glue: weighted control points, knot vector padding)"""
     name = "degree_ops"
@@ -315,7 +318,8 @@ class DegreeOps(Family):
             crv.knotvector = [0.0] * (p + 1) + [1.0] * (p + 1)
             operations.degree_operations(crv, [c["t"]])
             pts = crv.ctrlptsw if c["rational"] else crv.ctrlpts
-            return {"degree": crv.degree, "P": [list(pt) for pt in pts], "kv": list(crv.knotvector)}
+            return {"degree": crv.degree, "P": [list(pt) for pt in pts], "kv": list(crv.knotvector),
+                    "evals": [list(crv.evaluate_single(x)) for x in XS]}
         return call(f)
 
     def coq(self, c, out):
@@ -345,6 +349,14 @@ class DegreeOps(Family):
         for i in range(nd + 1):
             if not gc.closel(o["P"][i], E[i], 1e-8):
                 return "degree_operations-curve: control point %d = %s expected %s" % (i, o["P"][i], [float(x) for x in E[i]])
+        # the object itself (B-spline / NURBS evaluator on the new Bezier knot vector) still evaluates to the original curve
+        P0 = gc.fr(c["P"]) if t > 0 else E
+        for x, got in zip(XS, o.get("evals", [])):
+            pt = bezier_eval(P0, F(x))
+            if c["rational"]:
+                pt = [v / pt[-1] for v in pt[:-1]]
+            if not gc.closel(got, pt, 1e-8):
+                return "degree_operations-shape: curve point at %r is %s after the operation, the original curve has %s" % (x, got, [float(v) for v in pt])
         return None
 
     def stratum(self, c, out):
